@@ -8,7 +8,7 @@ import shutil
 from . import core
 
 SHARD = 1200
-CHUNK = {"sm": 2500, "c17": 8, "c09": 100}
+CHUNK = {"sm": 2500, "c17": 8, "c09": 100, "hand": 6}
 
 
 class HarnessCrash(RuntimeError):
@@ -211,13 +211,18 @@ def standard_flow(res, hx, corr, n, signature, describe, rule, nontrivial, key, 
     if relevant:
         bad = [(c, code, step) for (c, code, step) in bad if relevant(c, code, step)]
     suspects = [(c, code, step) for (c, code, step) in bad if code >= 2]
+    # what falls under a listed finding's signature is reported as that finding; it needs no slow re-run
+    known_sigs = {f["signature"] for f in core.known_findings(res.prop) if f.get("signature")}
+    listed = [(c, code, step) for (c, code, step) in suspects if code >= 3 and signature(c, step) in known_sigs]
+    suspects = [x for x in suspects if not (x[1] >= 3 and signature(x[0], x[2]) in known_sigs)]
     if deterministic:
         confirmed = suspects          # nothing timing-dependent in this harness: a re-run would repeat the same steps
     else:
         confirmed = confirm(res, hx, corr, suspects, mode=mode, unit=unit) if suspects else []
+    confirmed = listed + confirmed
     if relevant:
         confirmed = [(c, code, step) for (c, code, step) in confirmed if relevant(c, code, step)]
-    flaky = len(suspects) - len([1 for x in confirmed if x[1] >= 2])
+    flaky = len(suspects) + len(listed) - len([1 for x in confirmed if x[1] >= 2])
 
     def triage(found):
         """returns (violations, correspondence_breaks)"""
